@@ -663,6 +663,11 @@ class RewritingContext:
             if isinstance(modification, _InsertionOrReplacement):
                 context = InsertionContext(self._module, func, block, offset)
                 if isinstance(modification.patch, Patch):
+                    # The patch and the assembler look symbols up through
+                    # Symbol.referent, which is None for references that
+                    # the cache still holds indirectly (e.g. the labels of
+                    # a block deleted earlier in this batch).
+                    modify_cache.reference_cache.apply()
                     assembler_result = self._invoke_patch(
                         modification.patch,
                         actual_block,
